@@ -33,7 +33,13 @@ FW_LISTS = ("internal_inbound_acl", "internal_outbound_acl", "dmz_inbound_acl", 
             "external_inbound_acl", "external_outbound_acl")
 
 ACL_SHAPES = ("exact-src", "exact-dst", "exact-both", "wild-src", "wild-dst", "wild-both", "any", "proto3",
-              "proto3-src", "proto3-dst")
+              "proto3-src", "proto3-dst", "port-dst", "port-src", "port-both")
+# port-specific deny rules block one service, not the host: they are complete blocks only for traffic of that service
+# (the check restricts the post-block repertoire to it and verifies by observation that hA emitted nothing else towards hB)
+PORT_SHAPES = ("port-dst", "port-src", "port-both")
+SVC_PORT = {"db": ("POSTGRES_SERVER", 5432), "ftp": ("FTP", 21), "ssh": ("SSH", 22), "http": ("HTTP", 80)}
+PP_PROTOS = ("tcp", "ALL")
+PP_ADDRS = ("none", "src", "dst", "both")
 A_TOKENS = ("dmbot", "ransom", "dos", "c2s", "c2b")
 B_TOKENS = ("web", "c2b", "c2s")
 
@@ -91,16 +97,19 @@ def wild_base(ip: str, mask: str, kind: str, off: int = 0) -> str:
     return _int2ip(net | k)
 
 
-def acl_rules(shape: str, ip_a: str, ip_b: str, wc: Optional[Dict] = None) -> List[Dict]:
+def acl_rules(shape: str, ip_a: str, ip_b: str, wc: Optional[Dict] = None, pp: Optional[Dict] = None) -> List[Dict]:
     """Deny rule(s) that together match every IP frame from A to B. Keys as the *action* names them.
 
     `wc` (wildcard shapes only): {"mask", "src_base", "dst_base", "off"}; absent = normalised /24 range.
+    `pp` (port shapes only): {"svc": db|ftp|ssh|http, "proto": tcp|ALL, "addr": none|src|dst|both}; the rule names the
+    service's port as destination port only, source port only, or both (the unnamed side stays "ALL").
     """
     wc = wc or {}
     wmask = wc.get("mask", "0.0.0.255")
     net_a = wild_base(ip_a, wmask, wc.get("src_base", "net"), int(wc.get("off", 0)))
     net_b = wild_base(ip_b, wmask, wc.get("dst_base", "net"), int(wc.get("off", 0)) + 3)
-    base = {"src_ip": "ALL", "src_wildcard": "NONE", "dst_ip": "ALL", "dst_wildcard": "NONE", "protocol_name": "ALL"}
+    base = {"src_ip": "ALL", "src_wildcard": "NONE", "dst_ip": "ALL", "dst_wildcard": "NONE", "protocol_name": "ALL",
+            "src_port": "ALL", "dst_port": "ALL"}
 
     def r(**kw):
         d = dict(base)
@@ -127,7 +136,38 @@ def acl_rules(shape: str, ip_a: str, ip_b: str, wc: Optional[Dict] = None) -> Li
         return [r(protocol_name=p, src_ip=ip_a) for p in ("icmp", "udp", "tcp")]
     if shape == "proto3-dst":
         return [r(protocol_name=p, dst_ip=ip_b) for p in ("udp", "tcp", "icmp")]
+    if shape in PORT_SHAPES:
+        pp = pp or {}
+        port = SVC_PORT[pp.get("svc", "db")][1]
+        kw: Dict[str, Any] = {"protocol_name": pp.get("proto", "tcp")}
+        if shape in ("port-dst", "port-both"):
+            kw["dst_port"] = port
+        if shape in ("port-src", "port-both"):
+            kw["src_port"] = port
+        if pp.get("addr", "none") in ("src", "both"):
+            kw["src_ip"] = ip_a
+        if pp.get("addr", "none") in ("dst", "both"):
+            kw["dst_ip"] = ip_b
+        return [r(**kw)]
     raise ValueError(shape)
+
+
+PORT_NAME = {v[1]: v[0] for v in SVC_PORT.values()}
+
+
+def rule_covers(rule: Dict, proto: str, src_ip: str, dst_ip: str, src_port: Optional[int], dst_port: Optional[int]) -> bool:
+    """Independent reading of one exact-address rule (used for port shapes): unset field = any."""
+    if rule["protocol_name"] != "ALL" and rule["protocol_name"] != proto:
+        return False
+    if rule["src_ip"] != "ALL" and rule["src_ip"] != src_ip:
+        return False
+    if rule["dst_ip"] != "ALL" and rule["dst_ip"] != dst_ip:
+        return False
+    if rule["src_port"] != "ALL" and rule["src_port"] != src_port:
+        return False
+    if rule["dst_port"] != "ALL" and rule["dst_port"] != dst_port:
+        return False
+    return True
 
 
 def _cfg_rule(rule: Dict) -> Dict:
@@ -143,6 +183,10 @@ def _cfg_rule(rule: Dict) -> Dict:
         d["dst_ip"] = rule["dst_ip"]
     if rule["dst_wildcard"] != "NONE":
         d["dst_wildcard_mask"] = rule["dst_wildcard"]
+    if rule.get("src_port", "ALL") != "ALL":
+        d["src_port"] = PORT_NAME[rule["src_port"]]
+    if rule.get("dst_port", "ALL") != "ALL":
+        d["dst_port"] = PORT_NAME[rule["dst_port"]]
     return d
 
 
@@ -215,8 +259,8 @@ def block_target(spec: Dict) -> Dict:
     out: Dict[str, Any] = {"mech": m}
     if m == "acl":
         acl = P["acls"][b.get("which", 0) % len(P["acls"])]
-        out.update(acl=acl, rules=acl_rules(b["shape"], P["ip_a"], P["ip_b"], b.get("wc")), pos=int(b.get("pos", 0)),
-                   shape=b["shape"])
+        out.update(acl=acl, rules=acl_rules(b["shape"], P["ip_a"], P["ip_b"], b.get("wc"), b.get("pp")),
+                   pos=int(b.get("pos", 0)), shape=b["shape"])
     elif m == "nic":
         out.update(node=A if b.get("side", "A") == "A" else B)
     elif m == "swport":
@@ -251,6 +295,8 @@ def applicable(spec: Dict) -> bool:
         return False
     if spec["when"] == "after" and spec.get("via") == "config":
         return False
+    if spec.get("via") == "api" and m != "acl":
+        return False  # the Python API realisation exists for rule lists only
     return True
 
 
@@ -262,7 +308,7 @@ def block_requests(spec: Dict) -> List[Dict]:
         acl = t["acl"]
         out = []
         for i, rule in enumerate(t["rules"]):
-            opts = dict(rule, permission="DENY", position=t["pos"] + i, src_port="ALL", dst_port="ALL")
+            opts = dict(rule, permission="DENY", position=t["pos"] + i)
             if acl["kind"] == "router":
                 out.append({"action": "router-acl-add-rule", "options": dict(opts, target_router=acl["dev"])})
             else:
